@@ -204,6 +204,12 @@ def evaluate_samples_rules(ctx, body):
                          and must_pass_sem(ctx, body, some_bb, {header}, {il[1]}) and (not ed or dominates_sem(ctx, body, ed[0].bb, il[1])) and not restricting(ctx, body, il)
         ctx.check(okfill, 'C06.sibling/fill-nearest_to_zero', 'T-SIBLING', body.name,
                   'omitted irrelevant variables are not completed with Bound::nearest_to_zero for every state, after its dependencies (Instance::evaluate does this)', body.site(nextc.bb))
+        # a bound check, if there is one, looks at the states AS SUBMITTED (Instance::evaluate checks before anything is evaluated or completed):
+        # no check_bound that can follow eval_dependencies / the completion within an iteration (seed C06-9: dependent values checked, an Err evaluate does not have)
+        cbs = [c for c in body.calls if c.item == 'check_bound' and c.path.endswith('Instance>::check_bound')]
+        late = [c for c in cbs for e in ed + [a['call'] for a in absent_inserts(ctx, body, blocks)] if e.target >= 0 and c.bb in body.reach([e.target], stop={header})]
+        after_loop = [c for c in cbs if c.bb not in blocks and dominates_sem(ctx, body, header, c.bb) and root_local(body, c.args[1]) in samples_locals(lo)]
+        ctx.check(not late and not after_loop, 'C06.sibling/bound-check-on-submitted-state', 'T-SIBLING', body.name, 'check_bound is applied to a state after its dependent / default values were written (Instance::evaluate checks the state as given)', body.site((late + after_loop)[0].bb) if late or after_loop else body.site(nextc.bb))
         for c in tr:
             ctx.check(dominates_sem(ctx, body, none_bb, c.bb) and c.bb not in blocks, 'C06.sibling/transpose-after-completion', 'T-MUSTCALL', body.name, 'values are transposed before the states are completed', body.site(c.bb))
             ctx.check(root_local(body, c.args[0]) in samples_locals(lo), 'C06.sibling/transpose-same-samples', 'T-CARRY', body.name, 'transpose is applied to other samples than the completed ones', body.site(c.bb))
@@ -366,11 +372,8 @@ def kernel_rules(ctx):
         error_propagates(ctx, R + '/error', b, [obj for obj, K, ev in maps], 'samples.map')
 
 
-def constraint_rules(ctx):
-    R = 'C06.constraint'
-    # Constraint::evaluate_samples
-    b = ctx.method(R + '/evaluate_samples/anchor', CON, 'evaluate_samples', trait='Evaluate')
-    if b is not None:
+def _constraint_samples(ctx, R, b):
+    if True:
         sv = returned_struct(ctx, b, SC)
         ctx.check(sv is not None, R + '/evaluate_samples/aggregate', 'T-CARRY', b.name, 'the SampledConstraint returned on success is not one recognisable value', b.site())
         for bi, st in ([(sv.where, sv.st())] if sv is not None else []):
@@ -407,9 +410,10 @@ def constraint_rules(ctx):
                 root, fs = canon(b, op)
                 okk = okk and root == item and bool(fs) and fs[-1] == ('tuple', '0')
             ctx.check(okk, 'C06.rule/Constraint::evaluate_samples/key', 'T-CARRY', b.name, 'pair key is not the sample id of the item (or not every sample gets a verdict)', b.site(lo[0].bb))
-    # RemovedConstraint::evaluate_samples
-    b = ctx.method(R + '/removed/anchor', RC, 'evaluate_samples', trait='Evaluate')
-    if b is not None:
+
+
+def _removed_samples(ctx, R, b):
+    if True:
         ce = [c for c in b.calls if c.item == 'evaluate_samples' and re.search(r'<v1::Constraint as evaluate::Evaluate>::evaluate_samples', c.name)]
         ctx.check(len(ce) >= 1, R + '/removed/delegates', 'T-MUSTCALL', b.name, 'does not evaluate the wrapped constraint', b.site())
         for c in ce:
@@ -427,6 +431,16 @@ def constraint_rules(ctx):
             ctx.check(ok, R + '/removed/' + f, 'T-CARRY', b.name, 'SampledConstraint.%s is not set from self.%s' % (f, f), b.site())
         bad = inherited_from(ctx, b, sv, ce, ('removed_reason', 'removed_reason_parameters')) if sv is not None else ['?']
         ctx.check(not bad, R + '/removed/returns-it', 'T-CARRY', b.name, 'returned value is not the sampled constraint in its fields %s' % bad, b.site())
+
+
+def constraint_rules(ctx):
+    R = 'C06.constraint'
+    # Constraint::evaluate_samples
+    b = ctx.method(R + '/evaluate_samples/anchor', CON, 'evaluate_samples', trait='Evaluate')
+    if b is not None: with_renormalised(ctx, b, lambda bd: _constraint_samples(ctx, R, bd))
+    # RemovedConstraint::evaluate_samples
+    b = ctx.method(R + '/removed/anchor', RC, 'evaluate_samples', trait='Evaluate')
+    if b is not None: with_renormalised(ctx, b, lambda bd: _removed_samples(ctx, R, bd))
     # SampledConstraint::is_feasible (second copy of the rule)
     b = ctx.method('C06.rule/SampledConstraint::is_feasible/anchor', SC, 'is_feasible')
     if b is not None:
@@ -471,9 +485,13 @@ def option_tests_on(body, adt, field, blocks):
 
 
 def get_rules(ctx):
-    R = 'C06.get'
-    b = ctx.method(R + '/anchor', SS, 'get')
+    b = ctx.method('C06.get/anchor', SS, 'get')
     if b is None: return
+    with_renormalised(ctx, b, lambda bd: get_rules_on(ctx, bd))
+
+
+def get_rules_on(ctx, b):
+    R = 'C06.get'
     cover(ctx, 'C06.cover/SampleSet::get', b, SS, exempt=('sense',))
     sv = returned_struct(ctx, b, 'v1::Solution')
     ctx.check(sv is not None, R + '/aggregate', 'T-CARRY', b.name, 'the Solution returned on success is not one recognisable value', b.site())
@@ -655,6 +673,51 @@ def values_get_rules(ctx, R, b):
     ctx.check(len(lo_all) >= 1 and not any(restricting(ctx, b, l) for l in lo_all), R + '/get/all-entries', 'T-LOOPMUST', b.name, 'no loop over all entries', b.site())
 
 
+def values_iter_pairs(ctx, b):
+    """SampledValues::iter yields, for every entry e and every id in e.ids, the pair (id, &e.value) of THAT entry.  The lazy chain is
+    `entries.iter().flat_map(K)`; inside K (whose argument is the entry, whole or destructured) the pairs are built by
+        (a) e.ids.iter().map(|id| (id, &e.value))          inner closure capturing the entry or its value
+        (b) e.ids.iter().zip(std::iter::repeat(&e.value))
+    both the ids and the value have to hang on K's own argument."""
+    fm = [c for c in b.calls if c.item == 'flat_map' and (c.trait or '').endswith('Iterator') and len(c.args) == 2]
+    if len(fm) != 1: return False, 'no single flat_map over the entries'
+    if not ctx.S.slice_operand(b, fm[0].args[0]).has_field('v1::SampledValues', 'entries'): return False, 'flat_map is not over self.entries'
+    K, caps = closure_of(ctx, b, fm[0].args[1])
+    if K is None: return False, 'closure of flat_map not found'
+    def hangs_on_arg(body, operand, field, env_caps=None):
+        """operand reads <K's argument>.field (K's argument is parameter 2 of K)"""
+        e = T.expr(body, operand, depth=14)
+        for x in T.expr_walk(e):
+            if x[0] == 'place' and x[1] == 2 and body is K and x[2] and x[2][-1] == (SVE, field): return True
+        return False
+    ids_calls = [c for c in K.calls if c.item == 'iter' and c.args and hangs_on_arg(K, c.args[0], 'ids')]
+    if not ids_calls: return False, 'the ids iterated are not those of the entry handed to the closure'
+    # (b)
+    for z in K.calls:
+        if z.item == 'zip' and len(z.args) == 2 and any(i in ctx.S.slice_operand(K, z.args[0]).call_objs for i in ids_calls):
+            reps = [r for r in ctx.S.slice_operand(K, z.args[1]).call_objs if r.item == 'repeat' and r.args]
+            if reps and all(hangs_on_arg(K, r.args[0], 'value') for r in reps): return True, ''
+    # (a)
+    for m in K.calls:
+        if m.item != 'map' or len(m.args) != 2 or not any(i in ctx.S.slice_operand(K, m.args[0]).call_objs for i in ids_calls): continue
+        K2, caps2 = closure_of(ctx, K, m.args[1])
+        if K2 is None: continue
+        rets = [rs for e, k, rs in K2.ret_assignments() if k == 'val' and rs['rv']['k'] == 'agg' and rs['rv']['adt'] == 'tuple' and len(rs['rv']['ops']) == 2]
+        if len(rets) != 1 or len(K2.ret_assignments()) != 1: continue
+        ide = T.strip_wrappers(T.expr(K2, rets[0]['rv']['ops'][0])); ve = T.expr(K2, rets[0]['rv']['ops'][1])
+        if ide != ('place', 2, []): continue
+        vplaces = [x for x in T.expr_walk(ve) if x[0] == 'place' and x[1] == 1 and x[2] and x[2][0][1].isdigit()]
+        for x in vplaces:
+            k = int(x[2][0][1]); rest = [f for f in x[2][1:]]
+            if k >= len(caps2): continue
+            ce = T.expr(K, caps2[k], depth=14)
+            cplaces = [y for y in T.expr_walk(ce) if y[0] == 'place' and y[1] == 2]
+            for y in cplaces:
+                full = list(y[2]) + rest
+                if full and full[-1] == (SVE, 'value') and (SVE, 'ids') not in full: return True, ''
+    return False, 'the second component is not `.value` of the entry whose ids are iterated'
+
+
 def compress_rules(ctx):
     R = 'C06.compress'
     # Samples::map: each entry -> value of that entry's state, with that entry's ids
@@ -707,14 +770,10 @@ def compress_rules(ctx):
     # SampledValues::iter: (id, value) of the same entry
     b = ctx.method(R + '/iter/anchor', 'v1::SampledValues', 'iter')
     if b is not None:
-        ok = False
-        for cb in [x for x in ctx.F.bodies.values() if x.kind == 'closure' and x.parent == b.name]:
-            for bi, st in cb.stmts():
-                if st['dst']['l'] == 0 and st['rv']['k'] == 'agg' and st['rv']['adt'] == 'tuple' and len(st['rv']['ops']) == 2:
-                    vx = T.expr(cb, st['rv']['ops'][1])
-                    if (SVE, 'value') in T.expr_fields(vx): ok = True
+        ok, why = values_iter_pairs(ctx, b)
         s = ctx.S.backslice(b, [0])
-        ctx.check(ok and s.has_field(SVE, 'ids') and s.has_field('v1::SampledValues', 'entries'), R + '/iter/pairs', 'T-CARRY', b.name, 'iter does not yield (id, value-of-that-entry)', b.site())
+        restr = sorted({x.item for x in s.call_objs if x.item in RESTRICTING and 'Iterator' in (x.trait or '')})
+        ctx.check(ok and not restr and s.has_field(SVE, 'ids') and s.has_field('v1::SampledValues', 'entries'), R + '/iter/pairs', 'T-CARRY', b.name, 'iter does not yield (id, value-of-that-entry): %s' % (why or restr), b.site())
     # Samples::ids / iter / transpose
     b = ctx.method(R + '/ids/anchor', 'v1::Samples', 'ids')
     if b is not None:
@@ -765,7 +824,9 @@ def transpose_rules(ctx, R, b):
 
 # evaluate_samples resolves the dependent variables of every state through eval_dependencies (C04.deps) and has to call it on the
 # dependency map (C04.use); those rule families are re-decided under this property
-RELIES_ON = {'C04': ['C04.deps', 'C04.use']}
+# ... and `SampleSet::get(i) == evaluate(state_i)` holds only if Instance::evaluate reports the state the way evaluate_samples builds it
+# (substituted / dependent / default values: C05.state -- seed C06-10 changes the default value in evaluate only)
+RELIES_ON = {'C04': ['C04.deps', 'C04.use'], 'C05': ['C05.state']}
 
 
 def check(ctx):
@@ -776,5 +837,5 @@ def check(ctx):
     get_rules(ctx)
     compress_rules(ctx)
     # floors = decided instances per family on the pinned tree
-    ctx.floor('C06.samples', 50); ctx.floor('C06.keys', 4); ctx.floor('C06.sibling', 10); ctx.floor('C06.constraint', 31); ctx.floor('C06.rule', 15)
+    ctx.floor('C06.samples', 50); ctx.floor('C06.keys', 4); ctx.floor('C06.sibling', 11); ctx.floor('C06.constraint', 31); ctx.floor('C06.rule', 15)
     ctx.floor('C06.kernel', 20); ctx.floor('C06.get', 16); ctx.floor('C06.compress', 12); ctx.floor('C06.cover', 22)
